@@ -85,10 +85,20 @@ void INCLUDEStatement::loadSource(Parser& p, Context& ctx)
 
   if (_exp == nullptr)
     throw ParseError(EXC_PARSE_INV_EXPRESSION);
-  Value& val = _exp->value(ctx);
-  if (val.isNull())
-    throw ParseError(EXC_PARSE_INV_EXPRESSION);
-  FILE * progfile = ::fopen(val.literal()->c_str(), "r");
+  std::string path;
+  try
+  {
+    Value& val = _exp->value(ctx);
+    if (val.isNull())
+      throw ParseError(EXC_PARSE_INV_EXPRESSION);
+    path = *val.literal();
+  }
+  catch (RuntimeError& re)
+  {
+    /* the expression is evaluated while compiling: its failure is a compile error */
+    throw ParseError(EXC_PARSE_OTHER_S, re.what());
+  }
+  FILE * progfile = ::fopen(path.c_str(), "r");
   if (progfile == nullptr)
     throw ParseError(EXC_PARSE_OTHER_S, "Failed to open file for read.");
 
@@ -133,7 +143,7 @@ void INCLUDEStatement::loadSource(Parser& p, Context& ctx)
     for (auto s : statements)
       delete s;
     ::fclose(progfile);
-    throw ParseError(EXC_PARSE_INCLUDE_FAILED_S, val.literal()->c_str());
+    throw ParseError(EXC_PARSE_INCLUDE_FAILED_S, path.c_str());
   }
 
   if (np)
